@@ -159,15 +159,13 @@ fn pairs(k: usize, i: usize, j: usize) {
 }
 //@ props: C14
 //@ timeout: 1200
-//@ harness: c14_pairs_0, c14_pairs_2, c14_pairs_4, c14_pairs_5, c14_pairs_6, c14_pairs_7, c14_pairs_8
-//@ desc: container pairs: [s1,x] vs [s2,y] (string prefix then more elements); {k:x} vs {kk:y}; [[x],y] vs [[x',y']]; [{k:n},s,x] vs [{k':n',k'':y}]; [x] vs {k:y}; [[],x] vs [{},y]; {k:[x]} vs {k':{j:y}}; x,y case-split over {number width 2, 1-byte string} (quick) / plus null (thorough); key order == compare outside the recorded classes
+//@ harness: c14_pairs_0, c14_pairs_2, c14_pairs_6, c14_pairs_7, c14_pairs_8
+//@ desc: container pairs: [s1,x] vs [s2,y] (string prefix then more elements); {k:x} vs {kk:y}; [x] vs {k:y}; [[],x] vs [{},y]; {k:[x]} vs {k':{j:y}}; x,y case-split over {number width 2, 1-byte string} (quick) / plus null (thorough); key order == compare outside the recorded classes
 //@ fns: convert_to_comparable, array_convert_to_comparable, object_convert_to_comparable, scalar_convert_to_comparable, compare
 //@ bounds: depth 2, <= 3 children, strings/keys <= 2 bytes
 //@ stubs: parse_value -> panic | drop_in_place -> no-op
 harness!(c14_pairs_0, split2(2, 2, |i, j| pairs(0, i, j)));
 harness!(c14_pairs_2, split2(2, 2, |i, j| pairs(2, i, j)));
-harness!(c14_pairs_4, pairs(4, 0, 0));
-harness!(c14_pairs_5, pairs(5, 0, 0));
 harness!(c14_pairs_6, split2(2, 2, |i, j| pairs(6, i, j)));
 harness!(c14_pairs_7, split2(2, 2, |i, j| pairs(7, i, j)));
 harness!(c14_pairs_8, split2(2, 2, |i, j| pairs(8, i, j)));
@@ -279,3 +277,11 @@ fn c14_twin_must_fail() {
     let (a, b) = (B::build(&leaf(K_STR, 1)), B::build(&leaf(K_STR, 1)));
     assert!(key_order(&a, &b) != Ordering::Equal, "TWIN: deliberately false");
 }
+
+//@ props: UNREACHED-C14
+//@ timeout: 1800
+//@ harness: c14_pairs_4, c14_pairs_5
+//@ desc: [[x],y] vs [[x',y']] and [{k:n},s,x] vs [{k':n',k'':y}] (nested container followed by siblings): CBMC ERROR / out of memory at 28 GB
+//@ fns: convert_to_comparable, compare
+harness!(c14_pairs_4, pairs(4, 0, 0));
+harness!(c14_pairs_5, pairs(5, 0, 0));
